@@ -633,3 +633,46 @@ def predicates(ast):
             yield 'where', src, src['where']
         if src['t'] == 'join' and src['on']['f'] != 'nil':
             yield 'on', src, src['on']
+
+
+# ------------------------------------------------------------------------------------------------ display
+def show(node):
+    """Compact, lossless text of an AST (repr() of the real objects hides clauses: Equal.__bool__)."""
+    if g.is_feature(node):
+        f = node['f']
+        if f == 'nil':
+            return '-'
+        if f == 'col':
+            src = node['src']
+            return (src['name'] if src['t'] in ('table', 'ref') else '?') + '.' + node['name']
+        if f == 'lit':
+            return node['v']
+        if f == 'alias':
+            return f'{show(node["args"][0])} as {node["name"]}'
+        name = node['op'] + (f':{node["kind"]}' if node['op'] == 'cast' else '')
+        return f'{name}({", ".join(show(a) for a in node["args"])})'
+    t = node['t']
+    if t == 'table':
+        return node['name']
+    if t == 'ref':
+        return f'{node["name"]}=[{show(node["l"])}]'
+    if t == 'join':
+        return f'({show(node["l"])} {node["kind"]} {show(node["r"])}' + (f' on {show(node["on"])})' if node['on']['f'] != 'nil' else ')')
+    if t == 'set':
+        return f'({show(node["l"])} {node["kind"]} {show(node["r"])})'
+    if t == 'query':
+        text = f'{show(node["l"])}'
+        if node['sel']:
+            text += f'.select({", ".join(show(x) for x in node["sel"])})'
+        if node['where']['f'] != 'nil':
+            text += f'.where({show(node["where"])})'
+        if node['group']:
+            text += f'.groupby({", ".join(show(x) for x in node["group"])})'
+        if node['having']['f'] != 'nil':
+            text += f'.having({show(node["having"])})'
+        if node['order']:
+            text += f'.orderby({", ".join(show(o["x"]) + " " + o["dir"][:4] for o in node["order"])})'
+        if node['rows']:
+            text += f'.limit({node["rows"][0]}, {node["rows"][1]})'
+        return text if text != show(node['l']) else text + '.query'
+    return '?'
